@@ -53,7 +53,8 @@ def run(repo: Repo, tier: str) -> Report:
         ds = spi.count_defs[name]
         d = ds[0]
         inc1 = d.rhs.equals(Rat.atom(name) + Rat.const(1))
-        guards = sorted(d.guards)
+        from ..symb import minimal_guards
+        guards = sorted(minimal_guards(d.guards))
         ok = len(ds) == 1 and inc1 and guards == sorted([skip, cond])
         ob("R-FORMULA", "gammastd", f"{role}, skipping nodata, over the whole series", ok,
            f"increment {d.rhs.key()} under {guards}; required +1 under exactly {sorted([skip, cond])}", d.stmt)
